@@ -96,6 +96,46 @@ def r_extract(ctx):
         if ok:
             by = {tuple(norm(g) for g in e.guards): e.data["value"] for e in evs}
             ok = by.get((norm(opt),)) == want_opt and by.get((norm(app("not", opt)),)) == TRUE
+        if not ok and evs:
+            # any other spelling (`not optional or flag`, a conditional expression, ...): the value as a boolean function of
+            # (optional, model value of the flag) must be `flag if optional else True`
+            from sa.decide import truth_table_equiv, Undecided
+            OPT, FLAG = ("boolleaf", "optional"), ("boolleaf", "flag read from the model")
+
+            def as_formula(v):
+                v = norm(v)
+                if v == norm(want_opt):
+                    return FLAG
+                if v == norm(opt):
+                    return OPT
+                if v == TRUE or v == FALSE:
+                    return v
+                if v[0] == "phi":
+                    c_, a_, b_ = as_formula(v[1]), as_formula(v[2]), as_formula(v[3])
+                    return None if None in (c_, a_, b_) else app("If", c_, a_, b_)
+                if is_app(v) and v[1] in ("or", "and") :
+                    parts = [as_formula(x) for x in v[2:]]
+                    return None if None in parts else app("Or" if v[1] == "or" else "And", *parts)
+                if is_app(v, "not") and len(v) == 3:
+                    x = as_formula(v[2])
+                    return None if x is None else app("Not", x)
+                return None
+            cases = []
+            for e in evs:
+                val = as_formula(e.data["value"])
+                gs = [as_formula(g) for g in e.guards]
+                if val is None or None in gs:
+                    cases = None
+                    break
+                cases.append((And(*gs) if gs else TRUE, val))
+            if cases:
+                # the last write wins; the writes of one path are under exclusive guards
+                covered = Or(*[c for c, _ in cases])
+                value = Or(*[And(c, v) for c, v in cases])
+                try:
+                    ok = truth_table_equiv(covered, TRUE)[0] and truth_table_equiv(value, app("If", OPT, FLAG, TRUE))[0]
+                except Undecided:
+                    ok = False
         if ok:
             ctx.ok("R-SCHEDULED-READ", f"{where} [{cfgs}]", nontrivial=False)
         else:
